@@ -6,8 +6,14 @@ use crate::report;
 use serde_json::json;
 use std::collections::BTreeSet;
 
-const ELIGIBLE_NAMES: [&str; 10] = ["A.sol", ".sol", "a b.sol", "合约.sol", "x.sol.sol", "T.SOL.sol", "UPPER.sol", "a.tt.sol", "at.sol", "t.sol"];
-const INELIGIBLE_NAMES: [&str; 52] = [
+// the last six: punctuation that other platforms treat as separators or wildcards, and letters whose lower-case form has another UTF-8 length
+const ELIGIBLE_NAMES: [&str; 16] = [
+    "A.sol", ".sol", "a b.sol", "合约.sol", "x.sol.sol", "T.SOL.sol", "UPPER.sol", "a.tt.sol", "at.sol", "t.sol", "tokens\\ERC20.sol", "C:Vault.sol", "a*b?.sol", "\u{130}.sol",
+    "\u{212A}elvin.sol", "\u{1E9E}t.sol",
+];
+const INELIGIBLE_NAMES: [&str; 60] = [
+    // test files whose names change their byte length when lower-cased (U+0130, U+212A, U+1E9E, U+2126, U+023A)
+    "\u{130}stanbul.t.sol", "\u{212A}elvin.T.sol", "\u{1E9E}.t.sol", "\u{2126}hm.t.Sol", "\u{23A}\u{23E}.T.sol", "x\u{130}\u{130}\u{130}.t.sol", "test\\Vault.t.sol", "\u{130}.SOL",
     "run-1695731234567.json", "4294967296", "99999999999999999999.txt", "18446744073709551616.t.sol", "00000000000000000000000000000000000000001.md",
     "foundry.toml", "package.json", "hardhat.config.js", "remappings.txt", ".solhintignore", "Solstat.toml", "solstat_report.md", ".env", "brownie-config.yaml",
     "é.json", "設計.txt", "ü.md", "añb.txt", "ñ", "日本語.md", "résumé.txt", "é.t.sol", "合.SOL", "ö.sol~", "a\u{0301}.txt", "𝔘.dat",
